@@ -12,6 +12,7 @@ def c06(tier):
     s2 = [(10, 0), (3, 1)] if tier == "quick" else [(10, 0), (3, 1), (4, 1), (6, 1)]
     for c in s2:
         jobs.append(Job("h_c12::merged_arrays", c, dict(S2), budget_s=3000, validate=30))
+    jobs.append(Job("h_c12::nested_arrays", (), dict(S2), budget_s=3000, validate=20))
     return dict(
         jobs=jobs,
         bounds={"len_m": "0..%d" % n, "len_n": "0..%d" % n, "elements": "abstract atoms (JSON integers), duplicate-free per sequence, all cross-sequence equality patterns",
@@ -130,7 +131,7 @@ S2_ASSUME = ["single client thread; rayon par_iter bodies run sequentially in on
 
 
 def c04(tier):
-    combos = [(0, 4, 1, 0), (0, 4, 1, 1), (1, 0, 1, 1), (2, 0, 2, 0), (2, 0, 2, 1), (3, 0, 1, 0), (3, 0, 1, 1)]
+    combos = [(0, 4, 1, 0), (0, 4, 1, 1), (1, 0, 1, 1), (2, 0, 2, 0), (2, 0, 2, 1), (3, 0, 1, 0), (3, 0, 1, 1), (4, 0, 0, 0), (4, 0, 1, 1)]
     if tier != "quick":
         combos += [(0, 7, 1, 1), (0, 4, 2, 0), (1, 0, 2, 0), (1, 0, 1, 0), (0, 12, 1, 0)]
     jobs = [Job("h_c04::update_read", c, dict(S2), budget_s=3000, validate=30) for c in combos]
